@@ -103,6 +103,11 @@ func (st *flowState) walk(v ssa.Value, path string, a, b int64, aff bool, keys [
 			// a helper that did not exist at review time: continue in the arguments at its call sites
 			if args := argsAtSites(x); len(args) > 0 {
 				for _, arg := range args {
+					if al, isAlloc := arg.(*ssa.Alloc); isAlloc && path != "" && escapesOnlyToNewHelpers(al) {
+						// helper(&local) reading local.f: the value is what the caller stored in the local
+						st.load(al, path, a, b, aff, keys, depth+1)
+						continue
+					}
 					st.walk(arg, path, a, b, aff, keys, depth+1)
 				}
 				return
@@ -307,7 +312,7 @@ func (st *flowState) load(addr ssa.Value, path string, a, b int64, aff bool, key
 				}
 			}
 		}
-		if !found || x.Heap {
+		if !found || (x.Heap && !escapesOnlyToNewHelpers(x)) {
 			st.emit("alloc", x, CellName(x), path, a, b, aff, keys)
 		}
 	case *ssa.FieldAddr:
@@ -455,4 +460,74 @@ func OriginStrings(os []Origin) []string {
 	}
 	sort.Strings(out)
 	return out
+}
+
+// escapesOnlyToNewHelpers reports whether the only uses of a local's address, besides loads, stores and field
+// accesses in its own function, are arguments of functions that did not exist at review time and only read through
+// the pointer (such helpers are analysed as part of their callers, so the local is still a local of the caller).
+func escapesOnlyToNewHelpers(al *ssa.Alloc) bool {
+	if al.Referrers() == nil {
+		return false
+	}
+	passed := false
+	for _, ref := range *al.Referrers() {
+		switch r := ref.(type) {
+		case *ssa.Store:
+			if r.Addr != ssa.Value(al) {
+				return false
+			}
+		case *ssa.UnOp, *ssa.FieldAddr, *ssa.DebugRef:
+		case *ssa.Call:
+			callee := r.Call.StaticCallee()
+			if callee == nil || !IsNew(callee) || callee.Blocks == nil {
+				return false
+			}
+			for i, arg := range r.Call.Args {
+				if arg != ssa.Value(al) {
+					continue
+				}
+				if i >= len(callee.Params) || !onlyReadThrough(callee.Params[i]) {
+					return false
+				}
+			}
+			passed = true
+		default:
+			return false
+		}
+	}
+	return passed
+}
+
+// onlyReadThrough: the pointer parameter is only dereferenced for reading (loads and field/element reads).
+func onlyReadThrough(p *ssa.Parameter) bool {
+	if p.Referrers() == nil {
+		return true
+	}
+	var ok func(v ssa.Value, depth int) bool
+	ok = func(v ssa.Value, depth int) bool {
+		if depth > 4 {
+			return false
+		}
+		refs := v.Referrers()
+		if refs == nil {
+			return true
+		}
+		for _, ref := range *refs {
+			switch r := ref.(type) {
+			case *ssa.UnOp:
+				if r.Op != token.MUL {
+					return false
+				}
+			case *ssa.FieldAddr:
+				if !ok(r, depth+1) {
+					return false
+				}
+			case *ssa.DebugRef:
+			default:
+				return false
+			}
+		}
+		return true
+	}
+	return ok(p, 0)
 }
